@@ -105,6 +105,11 @@ class Executor:
         if self.proc is None or self.proc.poll() is not None:
             self.start()
         self.cases += 1
+        rec = os.environ.get("VERIF_RECORD_SCRIPTS")
+        if rec and self.cases % int(os.environ.get("VERIF_RECORD_EVERY", "50")) == 1 and len(script) < 200000:
+            os.makedirs(rec, exist_ok=True)
+            with open(os.path.join(rec, "%d_%d.script" % (os.getpid(), self.cases)), "wb") as fh:
+                fh.write(script)
         hdr = ("%d %d %d\n" % (len(script), cpu or self.cpu, wall or self.wall)).encode()
         try:
             self.proc.stdin.write(hdr + script)
